@@ -353,7 +353,8 @@ def _tern(i, n):
 
 
 def cases(rng, tier):
-    out = list(_corpus()) if tier != 'search' else []
+    corpus = list(_corpus()) if tier != 'search' else []
+    out = []
     nrand = dict(quick=(1500, 500, 700), thorough=(20000, 5000, 8000), search=(8000, 2000, 3000))[tier]
     # exhaustive binary scope
     for h in (1, 2, 3):
@@ -384,7 +385,8 @@ def cases(rng, tier):
         out.append(_rand_holes_case(rng))
     for _ in range(nrand[2]):
         out.append(_rand_hitmiss_case(rng))
-    return out
+    rng.shuffle(out)     # spread the heavy exhaustive blocks over the worker chunks (deterministic: same rng)
+    return corpus + out
 
 
 def shrink(case):
